@@ -126,7 +126,7 @@ def expect_coq(container, model_line):
                 rc = [0]
             else:
                 v, ok = ret.rsplit(",", 1)
-                rc = [1, int(ok)] + inner_list(v)
+                rc = [1, int(ok)] + inner_list(v.lstrip("~"))
             vals = []
             for x in (f[3].split(";") if f[3] else []):
                 l = inner_list(x)
@@ -251,7 +251,9 @@ def finish(c):
         assumptions=["Go's builtin map is trusted to be the abstract map keyed by == (HashMap's bucket table, MapSet, builtinMap)",
                      "sync.Pool hands out either a node previously Put or a fresh one (the oracle of the model); which one is not observable",
                      "the int64 size counter does not wrap (fewer than 2^63 entries)",
-                     "slices are modelled as lists: aliasing is checked on the real code by scribbling over every returned / passed slice"],
+                     "slices are modelled as lists: aliasing is checked on the real code by overwriting (elements and spare capacity) every slice returned by Keys / Values / multi-map Get / Delete and every slice passed to PutMany",
+                     "nil-ness of Keys()/Values() results is compared (the code never returns nil there); the nil-ness of the slice returned by MultiMap.Delete is not",
+                     "tree-backed multi map: the decorator model runs over the abstract map, its (key, values) pairs are sorted by the comparator before the in-order comparison with the implementation"],
         trusted_base=["Coq 8.16.1 kernel + vm_compute (no native_compute)", "no axioms (Print Assumptions: closed under the global context)",
                       "extraction: ExtrOcamlBasic only, no Extract Constant; cross-checked against vm_compute on 60 histories per run",
                       "OCaml driver ocaml/drv_hash.ml, Go harness harness/c03, hooks/mapx/x_verif.go, checks/c03.py + checks/decor.py"])
